@@ -372,7 +372,7 @@ def run_many(cases, opts_of, rundir, profile="debug", on_result=None, timeout=12
         o = opts_of(label) if callable(opts_of) else opts_of
         r = run_history(text, o, d, profile=profile, timeout=timeout)
         r["opts"] = o
-        if on_result:
+        if on_result and not r.get("error"):
             try:
                 on_result(label, text, r)
             except Exception as ex:  # oracle bugs must not pass silently
@@ -635,10 +635,19 @@ def engine_corr(res, pagesize):
         a = act[i]
         if w[0] == "begin" and a == "ok":
             if w[2] == "w":
-                if any(not t["w"] for t in txs.values()):
+                # read transactions open while the writer begins: the library releases only the batches older than the oldest
+                # of them (its id is in the tx_begin hook: [writable, tx id, #readers, reader ids ...]); the model does the same
+                # (model/EngineR.v run_tx_r)
+                bound = None
+                for hk in (hbc[i] if i < len(hbc) else []):
+                    if hk.startswith("hook:tx_begin:"):
+                        nums = [int(x) for x in hk.split(":")[2].split(",") if x.strip().isdigit()]
+                        if len(nums) >= 3 and nums[0] == 1 and nums[2] > 0:
+                            bound = min(nums[3:3 + nums[2]])
+                if any(not t["w"] for t in txs.values()) and bound is None:
                     break
                 txs[w[1]] = dict(w=True, handles={"0": []})
-                lines.append("tx"); origin.append(i)
+                lines.append("tx" if bound is None else "tx %d" % bound); origin.append(i)
             else:
                 txs[w[1]] = dict(w=False, handles={"0": []})
         elif w[0] in ("getb", "goc", "create") and w[1] in txs:
